@@ -156,12 +156,18 @@ def _pels(case):
         return out
     pt.prettyPrint = spy
     recs = []
+    deep_at = rng.choice([-1, 1, case['n'] // 2, case['n'] - 1])
     try:
         for k in range(case['n']):
             pel = genpel.gen_pel(rng, kinds=['PS', 'UD', 'UD'], creator='O', sev=0x40, flags=0x2000,
                                  eid=encode.u32(0x50001000 + k))
             pel['secs'][1] = genpel.gen_ud(rng, route='json') if k % 3 else genpel.gen_hostile_json_ud(rng)
             pel['secs'][2] = _text_ud(rng)
+            if k == deep_at:
+                # a log that decodes but cannot be PRINTED (JSON user data nested deeper than the JSON writer goes):
+                # it is reported and left out - of a listing that stays one well-formed document
+                raw = ('[' * 1300 + ']' * 1300).encode()
+                pel['secs'][1] = dict(genpel.hdr(rng, 'UD'), kind='UD', comp=[0x20, 0x00], sub=1, ver=1, payload=list(raw))
             pel['secs'][0]['callouts'] = None
             pel['secs'][0]['flags'] &= 0xFE
             if k in (1, 4) or rng.random() < .15:
@@ -268,7 +274,7 @@ def _pels(case):
                     parses, rt = False, False
                 recs.append(dict(shape_ok=True, src='jsonfile-' + pre, inl=[], outl=[], parses=parses, roundtrip=rt,
                                  text=text[:300]))
-            recs.append(dict(shape_ok=len(names) == len(wants) == case['n'], src='jsonfiles-' + pre, inl=[], outl=[],
+            recs.append(dict(shape_ok=len(names) == len(wants) == case['n'] - (1 if deep_at >= 0 else 0), src='jsonfiles-' + pre, inl=[], outl=[],
                              parses=True, roundtrip=True, text='%d files %d documents' % (len(names), len(wants))))
         shutil.rmtree(outdir, ignore_errors=True)
     finally:
